@@ -170,6 +170,11 @@ namespace occa {
 
   hash_t hash(const void *ptr, udim_t bytes);
 
+  // Declared before the templates below so that they are the overloads picked
+  // for strings, rather than hashing the bytes of the std::string / pointer object
+  hash_t hash(const char *c);
+  hash_t hash(const std::string &str);
+
   template <class T>
   inline hash_t hash(const std::vector<T> &vec) {
     hash_t h;
@@ -192,8 +197,6 @@ namespace occa {
   template <>
   hash_t hash_t::operator ^ (const hash_t &hash) const;
 
-  hash_t hash(const char *c);
-  hash_t hash(const std::string &str);
   hash_t hashFile(const std::string &filename);
 }
 
